@@ -413,3 +413,201 @@ pub fn try_cases(o: &mut Outcome, _thorough: bool) {
         }
     }
 }
+
+// ---------------------------------------------------------------------------------------------------------------
+// §3 condense_wildcard_suffixes
+
+/// the elements of the universe: (source text, rendered pattern, has a comment)
+pub const TUPLE_ELEMS: [(&str, &str, bool); 7] = [
+    ("a", "a", false),
+    ("_", "_", false),
+    ("..", "..", false),
+    ("/* c */ _", "_", true),
+    ("_ /* c */", "_", true),
+    ("(_)", "(_)", false),
+    ("_ | _", "_ | _", false),
+];
+
+pub fn tuple_lists(max_len: usize) -> Vec<Vec<usize>> {
+    let mut res: Vec<Vec<usize>> = vec![vec![]];
+    let mut layer: Vec<Vec<usize>> = vec![vec![]];
+    for _ in 0..max_len {
+        let mut next = vec![];
+        for l in &layer {
+            for e in 0..TUPLE_ELEMS.len() {
+                let mut m = l.clone();
+                m.push(e);
+                next.push(m);
+            }
+        }
+        res.extend(next.iter().cloned());
+        layer = next;
+    }
+    res
+}
+
+/// the elements of a printed tuple pattern `P(a, b, ..)`: split at the top-level commas, comments dropped
+pub fn tuple_elems_of(text: &str) -> Option<Vec<String>> {
+    let toks = lex(text, false);
+    let open = toks.iter().position(|t| t == "(")?;
+    let mut depth = 0i32;
+    let mut cur: Vec<String> = vec![];
+    let mut out = vec![];
+    for t in &toks[open..] {
+        match t.as_str() {
+            "(" | "[" | "{" => {
+                depth += 1;
+                if depth == 1 {
+                    continue;
+                }
+            }
+            ")" | "]" | "}" => {
+                depth -= 1;
+                if depth == 0 {
+                    break;
+                }
+            }
+            "," if depth == 1 => {
+                out.push(cur.join(""));
+                cur = vec![];
+                continue;
+            }
+            _ => {}
+        }
+        cur.push(t.clone());
+    }
+    if !cur.is_empty() {
+        out.push(cur.join(""));
+    }
+    Some(out)
+}
+
+pub fn tuple_cases(o: &mut Outcome, thorough: bool) {
+    let on = mk_cfg(&[("condense_wildcard_suffixes", "true")]);
+    let off = mk_cfg(&[("condense_wildcard_suffixes", "false")]);
+    for list in tuple_lists(if thorough { 5 } else { 4 }) {
+        for head in ["", "S"] {
+            if list.is_empty() {
+                continue;
+            }
+            let body = list.iter().map(|e| TUPLE_ELEMS[*e].0).collect::<Vec<_>>().join(", ");
+            // a 1-tuple needs its comma
+            let body = if list.len() == 1 && head.is_empty() && TUPLE_ELEMS[list[0]].1 != ".." { format!("{},", body) } else { body };
+            let src = format!("fn f() {{ match x {{ {}({}) => 1 }} }}\n", head, body);
+            let items = list.iter().map(|e| format!("{}:{}", enc_str(&squeeze(TUPLE_ELEMS[*e].1)), b(TUPLE_ELEMS[*e].2))).collect::<Vec<_>>().join(",");
+            for (opt, config) in [(true, &on), (false, &off)] {
+                if !opt && list.len() > 3 {
+                    continue;
+                }
+                o.count("tuple:inputs");
+                let Some(recs) = analyze(&src, config) else {
+                    o.count("tuple:does-not-parse");
+                    continue;
+                };
+                let Some(r) = first(&recs, "tuplepat") else { continue };
+                let out = r.get("out").unwrap_or("");
+                let suffix = r.get("suffix").unwrap_or("");
+                let has_comment = list.iter().any(|e| TUPLE_ELEMS[*e].2);
+                let req = format!("opt.tuple {} {}", b(opt), items);
+                if out == "!err" {
+                    // a comment would be lost: the rewrite gives up and the source stays (measured, not judged here)
+                    o.count(if has_comment { "tuple:rewrite-failed-with-comment" } else { "tuple:rewrite-failed" });
+                    if !has_comment {
+                        o.direct_failures.push(serde_json::json!({"sig": "tuple-rewrite-failed", "src": src}));
+                    }
+                    continue;
+                }
+                let Some(elems) = tuple_elems_of(out) else { continue };
+                let src_elems: Vec<String> = list.iter().map(|e| squeeze(TUPLE_ELEMS[*e].1)).collect();
+                let fired = elems != src_elems;
+                o.push("corr", "opt.tuple", req, format!("{} {} {}", suffix, b(fired), enc_strs(&elems)), format!("{:?}", src), fired);
+            }
+        }
+    }
+}
+
+// ---------------------------------------------------------------------------------------------------------------
+// §4 remove_nested_parens
+
+/// (attrs, pre, post) per level, outermost first
+pub type Levels = Vec<(&'static str, &'static str, &'static str)>;
+
+pub fn paren_universe(max_depth: usize) -> Vec<Levels> {
+    let opts: Vec<(&'static str, &'static str, &'static str)> = {
+        let mut v = vec![];
+        for a in ["", "#[a]"] {
+            for p in ["", "/* c */"] {
+                for q in ["", "/* d */"] {
+                    v.push((a, p, q));
+                }
+            }
+        }
+        v
+    };
+    let mut res: Vec<Levels> = vec![];
+    let mut layer: Vec<Levels> = vec![vec![]];
+    for _ in 0..max_depth {
+        let mut next = vec![];
+        for l in &layer {
+            for x in &opts {
+                let mut m = l.clone();
+                m.push(*x);
+                next.push(m);
+            }
+        }
+        res.extend(next.iter().cloned());
+        layer = next;
+    }
+    res
+}
+
+pub fn paren_src(levels: &[(&str, &str, &str)], atom: &str) -> String {
+    let mut s = atom.to_string();
+    for (a, p, q) in levels.iter().rev() {
+        s = format!("{}({}{}{}{}{})", if a.is_empty() { String::new() } else { format!("{} ", a) }, p, if p.is_empty() { "" } else { " " }, s, if q.is_empty() { "" } else { " " }, q);
+    }
+    s
+}
+
+pub fn enc_levels(levels: &[(&str, &str, &str)]) -> String {
+    if levels.is_empty() { "_".into() } else { levels.iter().map(|(a, p, q)| format!("{}:{}:{}", enc_str(a), enc_str(p), enc_str(q))).collect::<Vec<_>>().join(",") }
+}
+
+pub fn paren_cases(o: &mut Outcome, thorough: bool) {
+    let on = mk_cfg(&[("remove_nested_parens", "true")]);
+    let off = mk_cfg(&[("remove_nested_parens", "false")]);
+    for levels in paren_universe(if thorough { 4 } else { 3 }) {
+        for atom in ["a", "a + b"] {
+            if atom == "a" && levels.len() > 2 {
+                continue;
+            }
+            let src = format!("fn f() {{ let x = {}; }}\n", paren_src(&levels, atom));
+            for (opt, config) in [(true, &on), (false, &off)] {
+                if !opt && levels.len() > 2 {
+                    continue;
+                }
+                o.count("paren:inputs");
+                let Some(recs) = analyze(&src, config) else {
+                    o.count("paren:does-not-parse");
+                    continue;
+                };
+                let Some(r) = first(&recs, "paren") else { continue };
+                let out = r.get("out").unwrap_or("");
+                if out == "!err" {
+                    o.count("paren:rewrite-failed");
+                    continue;
+                }
+                // the model prints one line, the code breaks lines behind attributes: compare without blanks
+                let req = format!("opt.paren {} {} {}", b(opt), enc_levels(&levels), enc_str(atom));
+                let m = run_model(&[req.clone()], 1);
+                let mt = m.first().and_then(|a| dec_str(a)).unwrap_or_default();
+                o.direct_evals += 1;
+                if squeeze(&mt) != squeeze(out) {
+                    o.direct_failures.push(serde_json::json!({"sig": "paren-corr", "src": src, "impl": out, "model": mt, "request": req}));
+                } else if squeeze(out) != squeeze(&paren_src(&levels, atom)) {
+                    o.direct_distinct += 1;
+                }
+            }
+        }
+    }
+}
